@@ -19,7 +19,7 @@ ENDS = ["shutdown:outside", "shutdown:payload", "sigint", "fail:asyncio", "fail:
 BASE_ENDS = ["fail:threading:SystemExit", "fail:asyncio:SystemExit", "fail:trio:UserBaseError",
              "fail:threading:GeneratorExit"]
 POPULATIONS = ["none", "sleepers", "blocked", "submitter", "shielded", "stubborn",
-               "cross-calls"]
+               "cross-calls", "adopting:trio", "adopting:asyncio", "adopting:threading"]
 ACCEPT_DELAY = 1.0
 
 
@@ -124,6 +124,16 @@ class Scenario:
             kit.submit({"id": tag + "-trio", "flavour": "trio", "steps": [
                 ("repeat-execute", {"id": tag + "-x", "flavour": "asyncio",
                                     "steps": [("sleep", 0.05)]}, 0.05)]})
+        if population.startswith("adopting:"):
+            # a thread payload keeps adopting payloads of one flavour through the whole
+            # shutdown, which a trio payload with shielded cleanup stretches
+            kit.submit({"id": tag + "-trio", "flavour": "trio", "steps": [("forever", 0.4)],
+                        "cleanup": ("shield", 1.0)})
+            kit.submit({"id": tag + "-adopter", "flavour": "threading", "steps": [
+                ("sleep", max(stop_at - 0.2, 0.0)),
+                ("repeat-adopt", {"id": tag + "-late", "flavour": population.split(":")[1],
+                                  "steps": [("forever", 0.4)]}, 0.15, 12)]})
+            cleanup = 1.0
         if population == "stubborn":
             kit.submit({"id": tag + "-asyncio", "flavour": "asyncio",
                         "steps": [("stubborn", 2, 0.3)]})
@@ -383,6 +393,9 @@ def scenario_params(tier):
     for end, thread, population, stop_at, concurrent in itertools.product(
             ENDS, ["main", "second"], POPULATIONS, stops, [False, True]):
         if end == "sigint" and thread == "second":
+            continue
+        if population.startswith("adopting:") and (
+                thread != "main" or concurrent or stop_at != 0.5):
             continue
         if tier == "quick" and concurrent and stop_at == 0.0:
             continue
